@@ -13,7 +13,9 @@ STAT_NAMES = ["completed_as_initiator", "response_refused", "completed_as_respon
               "ticks", "confirmation_with_packets_staged", "forged_under_next_index", "forged_under_current_or_previous_index",
               "forged_under_index_not_honoured", "replayed_message", "restart", "restart_with_unconfirmed_next",
               "keepalive_sent_under_current", "rekey_after_120s_on_keepalive_only_send", "keepalive_with_no_or_expired_key",
-              "handshake_attempt_abandoned", "abandoned_while_a_key_is_current"]
+              "handshake_attempt_abandoned", "abandoned_while_a_key_is_current",
+              "response_with_event_inside_its_processing_window", "message_accepted_inside_the_window",
+              "initiation_created_inside_the_window_response_void"]
 
 CLAUSES = {1: "index-table-is-not-the-three-slots", 2: "sent-under-wrong-unconfirmed-or-expired-key",
            3: "responder-completion", 4: "initiator-completion-rotation", 5: "slots-changed-without-completion",
@@ -34,7 +36,10 @@ class Prop:
             "retired key, fresh counter, corrupted tag / ciphertext / garbage / wrong key) and replayed ones, three scenarios "
             "in which REAL time (0.6 s, socket idle) carries a key from 179.5 s past 180 s before a message arrives, interface "
             "Down/Up (Peer.Stop+Start) at every slot configuration followed by probes under the keys just dropped, keepalive-only transmissions (SendKeepalive through the UAPI "
-            "persistent-keepalive switch-on), the retransmit-handshake timer callback (retransmission, and giving up the "
+            "persistent-keepalive switch-on), EVENTS INSIDE THE RESPONSE-PROCESSING WINDOW of a handshake worker (between "
+            "ConsumeMessageResponse and BeginSymmetricSession: the worker is parked in the harness-owned device.Logger, or at "
+            "handshake.mutex inside BeginSymmetricSession; data / keepalive under the old current, previous or a retired key, or a "
+            "timer-style SendHandshakeInitiation, is handled there; then the new session is aged past 165 s and used), the retransmit-handshake timer callback (retransmission, and giving up the "
             "attempt, then using the surviving key past 120 s), TUN packets, timer-style initiations, time moved with the "
             "Verif shift hooks to 119/121/164/166/179/181 s of key age and across the 5 s handshake spacing; final "
             "sweep probing every session ever derived; after every event: datagrams emitted (which session opens "
@@ -43,14 +48,16 @@ class Prop:
             "alphabet with short ticks, timer-style initiation, stale/late responses to depth 5) up to the abstract "
             "device state, and depth-40 sequences; non-trivial = at least one completion in each role or a confirmation, and a "
             "refused message; distinct by content hash")
-    assumptions = ["one peer; events are injected one at a time with quiescence in between (no concurrent interleavings: C12/C13)",
+    assumptions = ["one peer; events are injected one at a time with quiescence in between (no concurrent interleavings: C12/C13), except the "
+                   "response-processing window, where one event is handled while the handshake worker is parked between its two locked steps",
                    "key ages are moved by the VerifShift hooks in whole seconds; scenarios last < 0.9 s of real time, longer ones are discarded and counted; "
                    "the three idle scenarios shift by 179.5 s and wait in real time, discarded if an age comes within 30 ms of a whole second",
                    "message-count limits (RejectAfterMessages/RekeyAfterMessages), the 20 ms initiation flood limit (neutralised by a hook), cookies and the real-time timers are outside the slice",
                    "C07_model_satisfies_spec (holdsb accepts every model trace) assumes whole-second ticks and fewer than 10^9 - 1 events, the harness's discipline"]
     trusted_extra = ["Base/Ints.v: primitive Uint63 literals carry the traces in generated case files only",
                      "add-only hook file /repo/device/verif_c07.go (SendHandshakeInitiation as the timers call it, latch/lastSentHandshake accessor, two time shifts)",
-                     "harness/ref: the harness's own WireGuard implementation decides which session opens a datagram"]
+                     "harness/ref: the harness's own WireGuard implementation decides which session opens a datagram",
+                     "harness/cmd/c07/window.go: the device's public Logger as schedule point and peer.handshake.mutex reached through Device.LookupPeer + reflection (read-locked by the harness to park the worker inside BeginSymmetricSession)"]
 
     def __init__(self):
         self.dir = os.path.join(vlib.OUT, "C07")
@@ -96,7 +103,7 @@ class Prop:
             "Print sweep.\n"
             "Definition bad : list (N * N * N) := Eval vm_compute in\n"
             "  (match sweep with (Some _, Some _) => [] | _ => [(0, 2, 999999)] end).\nPrint bad.\n"
-            "Definition st : list N := repeat 0 27.\nPrint st.\n")
+            "Definition st : list N := repeat 0 30.\nPrint st.\n")
         return p
 
     def failures(self, outputs, files, cases):
@@ -112,10 +119,10 @@ class Prop:
         return res
 
     def stats(self, outputs):
-        tot = [0] * 27
+        tot = [0] * 30
         for o in outputs.values():
             v = vlib.parse_n_list(vlib.coq_value(o, "st"))
-            if len(v) == 27:
+            if len(v) == 30:
                 tot = [a + b for a, b in zip(tot, v)]
         return dict(zip(STAT_NAMES, tot))
 
